@@ -508,6 +508,21 @@ def run_shard(spec, tier, seed):
         P = Prober(res)
         {"unary": run_unary, "binary": run_binary, "construct": run_construct, "awkward": run_awkward}[spec["part"]](spec, tier, seed, res, P, methods, attrs, funcs)
         res.count("specializations_compiled", sum(len(f.signatures) for f in P.cache.values()))
+        # supplementary (not deciding): NRT allocation statistics after the probes — boxed/unboxed vectors must not leak
+        try:
+            import gc
+
+            from numba.core.runtime import rtsys
+
+            P.cache.clear()
+            gc.collect()
+            st = rtsys.get_allocation_stats()
+            res.count("nrt_alloc", int(st.alloc))
+            res.count("nrt_free", int(st.free))
+            res.count("nrt_mi_alloc", int(st.mi_alloc))
+            res.count("nrt_mi_free", int(st.mi_free))
+        except Exception:
+            res.count("nrt_stats_unavailable")
         for s in P.sources[:2]:
             res.sample({"probe_source": s, "part": spec["part"]})
         res.sets["shard_walls"] = {f"{spec.get('part')}:{'_'.join(spec.get('system', []))}:{spec.get('mom', '')}={time.time() - t0:.0f}s"}
@@ -544,6 +559,7 @@ def finalize(total, tier, seed):
               "vector.obj", "awkward-loop"):
         if p not in probes:
             total.inconc(f"probe family {p} never compared")
-    return {"probe_families": sorted(probes), "specializations_compiled": total.counters.get("specializations_compiled", 0),
+    return {"nrt_supplementary": {k: total.counters.get(k, 0) for k in ("nrt_alloc", "nrt_free", "nrt_mi_alloc", "nrt_mi_free")},
+            "probe_families": sorted(probes), "specializations_compiled": total.counters.get("specializations_compiled", 0),
             "interpreter_rejections": {k: v for k, v in total.counters.items() if k.startswith("interpreter_rejects")},
             "inventory": sorted(total.sets.get("inventory", []))}
